@@ -20,8 +20,8 @@ PROPS = {
               "invariants I1-I5 are checked. evaluations = model-checked API calls; a case is non-trivial/distinct by its signature "
               "(table class, load decile, tombstones present, log2 buckets, at-full-load) x operation kind, counted as a set across shards"),
         lanes=dict(
-            quick=lanes(("dbg", 7, 20000), ("generic", 5, 20000), ("rel", 4, 20000), ("nd", 1, 5000)),
-            thorough=lanes(("dbg", 16, 240000), ("generic", 16, 240000), ("rel", 8, 240000), ("asan", 8, 120000), ("miri", 8, 180000), ("nd", 2, 60000)),
+            quick=lanes(("dbg", 6, 20000), ("generic", 4, 20000), ("rel", 3, 20000), ("native", 2, 20000), ("nd", 1, 5000)),
+            thorough=lanes(("dbg", 16, 240000), ("generic", 16, 240000), ("rel", 8, 240000), ("native", 8, 240000), ("asan", 8, 120000), ("miri", 8, 180000), ("nd", 2, 60000)),
         ),
         require=["rehash_in_place", "resize_grow", "steps_with_tombstones", "class_lt_group", "class_eq_group", "class_gt_group", "steps_at_full_load"],
         assumptions=COMMON_ASSUME,
@@ -48,8 +48,8 @@ PROPS = {
               "assigned by 13 plans (arbitrary position/tag collisions, duplicates of identical elements); compared step-for-step with a multiset model, "
               "plus find() of every stored element and I1-I5 after every call. distinct = table-state signature x operation kind"),
         lanes=dict(
-            quick=lanes(("dbg", 7, 15000), ("generic", 5, 15000), ("rel", 4, 15000)),
-            thorough=lanes(("dbg", 16, 180000), ("generic", 16, 180000), ("rel", 8, 180000), ("asan", 8, 120000), ("miri", 8, 120000)),
+            quick=lanes(("dbg", 6, 15000), ("generic", 5, 15000), ("rel", 3, 15000), ("native", 2, 15000)),
+            thorough=lanes(("dbg", 16, 180000), ("generic", 16, 180000), ("rel", 8, 180000), ("native", 8, 180000), ("asan", 8, 120000), ("miri", 8, 120000)),
         ),
         require=["rehash_in_place", "resize_grow", "steps_with_tombstones", "steps_with_duplicates", "class_lt_group", "class_gt_group"],
         assumptions=COMMON_ASSUME,
@@ -264,8 +264,8 @@ PROPS = {
               "byte pairs) plus random groups; the portable tag match may additionally report a byte equal to tag^1 above a true match, nothing else. "
               "evaluations = primitive evaluations + model-checked calls; distinct = (position, tag, background) cells and table-state x operation signatures"),
         lanes=dict(
-            quick=lanes(("dbg", 8, 120000), ("generic", 8, 120000)),
-            thorough=lanes(("dbg", 16, 1200000), ("generic", 16, 1200000), ("rel", 8, 1200000)),
+            quick=lanes(("dbg", 8, 120000), ("generic", 8, 120000), ("native", 8, 120000)),
+            thorough=lanes(("dbg", 16, 1200000), ("generic", 16, 1200000), ("native", 16, 1200000), ("rel", 8, 1200000)),
         ),
         cross_lane=True,
         assumptions=COMMON_ASSUME + ["NEON and LSX scanners cannot be executed on x86_64 and are not covered", "`--cfg miri` selects the portable scanner and has no other effect on hashbrown"],
